@@ -9,11 +9,14 @@ LEVEL = 'proof'
 RULE = ('argument strings drawn per character from weighted classes (plain, ok-punctuation, blank, single quote, sh-special, '
         'Make/Ninja-special incl. $ : space, backslash, non-ASCII) plus a corner-case corpus; a case is non-trivial when it '
         'contains a character outside [A-Za-z0-9_]; distinct by exact text')
-TRUSTED = ('R model Ninja/NinjaRead.v (lexer, scoping, $in/$out escaping) is TRUSTED: no ninja binary exists in this sandbox; '
-           'written from the Ninja manual / lexer.in.cc / eval_env.cc / util.cc',
-           'harness/ninjaparse.py splits build.ninja into lines and blocks (structure only); all lexing/evaluation is done by the extracted Coq model',
+TRUSTED = ('R model Ninja/NinjaRead.v (lexer, $in/$out escaping) + Ninja/NinjaManifest.v (manifest structure, scoping, lookup order of '
+           'command_of) is TRUSTED: no ninja binary exists in this sandbox; written from the Ninja manual / manifest_parser.cc / '
+           'lexer.in.cc / eval_env.cc / graph.cc / util.cc; documented deviations are listed at the top of NinjaManifest.v and guarded at run time',
+           'harness/ninjaparse.py only decodes the extracted evaluator; its former Python structure splitter runs as a cross-check on every manifest '
+           '(disagreement = broken obligation); the Ninja half is further cross-checked by agreement with real GNU Make on the same projects (C06 machinery)',
            'R model Shell/Sh.v validated against /bin/dash (see C01); the shell layer of the oracle is the real dash')
 SYN = {'output': 0, 'input': 1, 'shell': 2, 'clean': 3}
+_CWD = None      # scratch directory in which evaluated command lines are run (a broken tree may emit redirections)
 
 
 def gen_nfrag(rng):
@@ -146,10 +149,27 @@ def stage_oracle_ninja(rep, rng, n):
         args = [a for a in args if not any(c in a for c in '\n\r\0')]
         if not args:
             continue
-        for channel in ('cmd', 'flags'):
+        for channel in ('cmd', 'flags', 'edgevars'):
             nf = NinjaFile('build.bfg')
             k = len(args) // 2
-            if channel == 'cmd':
+            if channel == 'edgevars':
+                # every edge variable's words must reach the process, whatever the order of the variables in the dict and
+                # wherever a description (the only variable written without shell quoting) stands among them
+                names = ['input', 'output', 'extra', 'v4'][:rng.randint(1, 4)]
+                cuts = sorted(rng.randint(0, len(args)) for _ in range(len(names) - 1))
+                parts = [args[a:b] for a, b in zip([0] + cuts, cuts + [len(args)])]
+                nf.rule('r', command=[shtools.ARGVREC] + [var(n_) for n_ in names])
+                order = list(zip(names, parts))
+                rng.shuffle(order)
+                vs = dict(order)
+                if rng.random() < 0.8:
+                    items_ = list(vs.items())
+                    items_.insert(rng.randint(0, len(items_)), ('description', gen.arg_string(rng, None, maxlen=6).replace('\n', ' ') or 'd $x'))
+                    vs = dict(items_)
+                    rep.count('edgevars:after_description=%d' % (len(vs) - 1 - list(vs).index('description')))
+                nf.build(output='out', rule='r', variables=vs)
+                expect = args
+            elif channel == 'cmd':
                 nf.rule('command', command=shell.shell_list([var('cmd')]))
                 nf.build(output='out', rule='command', variables={'cmd': [shtools.ARGVREC] + args})
                 expect = args
@@ -165,10 +185,14 @@ def stage_oracle_ninja(rep, rng, n):
             err = ''
             try:
                 m = ninjaparse.parse(o.getvalue())
-                cmd = m.command('out' if channel == 'cmd' else 'o ut.o')
-                rc, recs, err = shtools.dash_run(cmd)
+                cmd = m.command('o ut.o' if channel == 'flags' else 'out')
+                rc, recs, err = shtools.dash_run(cmd, cwd=_CWD)
                 if rc == 0 and len(recs) == 1:
                     got = recs[0]['argv']
+            except ninjaparse.NinjaDisagreement as e:
+                rep.fail('R:structure parser - %s' % e, {'obligation': 'R:parse_manifest == Python splitter', 'build.ninja': o.getvalue(),
+                                                        'detail': str(e)}, found_input=False)
+                continue
             except ninjaparse.NinjaError as e:
                 err = str(e)
             rep.case('on:%s:%r' % (channel, args), any(nontrivial(a) for a in args))
@@ -178,22 +202,361 @@ def stage_oracle_ninja(rep, rng, n):
                             {'channel': channel, 'args': expect, 'delivered': got, 'build.ninja': o.getvalue(), 'error': err},
                             classes=()):
                     bad += 1
-    rep.stage('oracle:build.ninja->evaluator->sh', cases=len(cases) * 2, failures=bad)
+    rep.stage('oracle:build.ninja->evaluator->sh', cases=len(cases) * 3, failures=bad)
+    return bad
+
+
+# ----------------------------------------------------------------------------- NinjaFile.write (text layout)
+KEYWORDS = {'rule', 'build', 'default', 'pool', 'include', 'subninja', 'command', 'depfile', 'dyndep', 'description', 'deps',
+            'generator', 'restat', 'rspfile', 'rspfile_content', 'msvc_deps_prefix', 'phony', 'in', 'out'}
+
+
+def gen_name(rng, used):
+    while True:
+        n = rng.choice('abcxyz_') + ''.join(rng.choice('abcxyz019_') for _ in range(rng.randint(0, 6)))
+        if n not in used and n not in KEYWORDS:
+            used.add(n)
+            return n
+
+
+def gen_value_item(rng, rep, refs, bad_nl):
+    """one item of a value: (frag encodings, python object); literals are variable references only (so that every
+    generated file is inside the guard of C02_parse_total_on_written)"""
+    from bfg9000.safe_str import jbos, shell_literal
+    from bfg9000.backends.ninja.syntax import var
+    k = rng.random()
+    s = gen.arg_string(rng, rep, maxlen=6)
+    if bad_nl and rng.random() < 0.5:
+        s = s[:1] + '\n' + s[1:]
+    if k < 0.6 or not refs:
+        return [[2, s]], s
+    n = rng.choice(refs)
+    if k < 0.8:
+        return [[0, '${%s}' % n]], var(n)
+    if k < 0.9:
+        return [[2, '-I' + s], [0, '${%s}' % n]], jbos('-I' + s, var(n).use())
+    return [[1, s]], shell_literal(s)
+
+
+def gen_value(rng, rep, refs, bad_nl=False, lo=0):
+    enc, py = [], []
+    for _ in range(rng.randint(lo, 3)):
+        e, o = gen_value_item(rng, rep, refs, bad_nl)
+        enc.append(e); py.append(o)
+    return enc, py
+
+
+def gen_pathname(rng, rep, tag):
+    s = gen.arg_string(rng, rep, maxlen=5).replace('|', '!').replace('\n', '_')
+    return tag + s
+
+
+def stage_w_file(rep, rng, n):
+    """W tie of the layout model NinjaFileWrite.v: random NinjaFile contents are stored through the real
+    NinjaFile.variable/rule/build/default, written by the real NinjaFile.write, and compared with nf_write; on the well-formed
+    ones the extracted parser must succeed on the REAL text and give back the declared structure (tie of
+    C02_parse_total_on_written to the real writer)."""
+    from bfg9000.backends.ninja.syntax import NinjaFile, Section, var
+    from bfg9000.safe_str import jbos
+    uw, _ = gen.uni_tables()
+    calls, impl, declared = [], [], []
+    for i in range(n):
+        bad_nl = rng.random() < 0.06
+        nf = NinjaFile('build' + gen.arg_string(rng, None, maxlen=4).replace('\n', '') + '.bfg')
+        used, refs = set(), []
+        enc_vars = {sec: [] for sec in Section}
+        minver = None
+        for sec in Section:
+            for _ in range(rng.choice([0, 0, 1, 2, 3])):
+                name = gen_name(rng, used)
+                e, o = gen_value(rng, rep, refs, bad_nl)
+                nf.variable(name, o, sec)
+                enc_vars[sec].append([name, e]); refs.append(name)
+        enc_rules, rnames = [], []
+        for _ in range(rng.choice([0, 1, 1, 2, 3])):
+            name = gen_name(rng, used)
+            ce, co = gen_value(rng, rep, refs + ['in', 'out'], bad_nl, lo=1)
+            kw, er = {}, [name, ce, None, None, None, False, None, False]
+            if rng.random() < 0.4:
+                kw['depfile'] = var('out') + '.d'; er[2] = [[[0, '${out}'], [2, '.d']]]
+                kw['deps'] = 'gcc'; er[3] = [[[2, 'gcc']]]
+            if rng.random() < 0.5:
+                d = gen.arg_string(rng, rep, maxlen=6, allow_empty=False)
+                kw['description'] = jbos(d + ' => ', var('out').use()); er[4] = [[[2, d + ' => '], [0, '${out}']]]
+            if rng.random() < 0.3:
+                kw['generator'] = True; er[5] = True
+            if rng.random() < 0.3:
+                kw['pool'] = 'console'; er[6] = [[[2, 'console']]]; minver = '1.5'
+            if rng.random() < 0.2:
+                kw['restat'] = True; er[7] = True
+            nf.rule(name, co, **kw)
+            enc_rules.append(er); rnames.append(name)
+        enc_builds, outs_decl = [], []
+        for b in range(rng.choice([0, 1, 2, 3])):
+            rule = rng.choice(rnames + ['phony']) if rnames else 'phony'
+            sect = []
+            for j, (lo, hi) in enumerate(((1, 2), (0, 2), (0, 2), (0, 1))):
+                sect.append([gen_pathname(rng, rep, 'p%d_%d_%d' % (b, j, k)) for k in range(rng.randint(lo, hi))])
+            vs_enc, vs_py = [], {}
+            for _ in range(rng.choice([0, 1, 2, 3, 4])):
+                vn = rng.choice(['cmd', 'description', 'description', 'input', 'output', 'extra']) if rng.random() < 0.8 \
+                    else gen_name(rng, set(used))
+                if vn in vs_py:
+                    continue
+                e, o = gen_value(rng, rep, refs, bad_nl, lo=1)
+                if vn == 'description' and rng.random() < 0.5:
+                    e, o = [[[2, 'd$ x']]], 'd$ x'
+                vs_enc.append([vn, e]); vs_py[vn] = o
+            if 'description' in vs_py:
+                rep.count('file_write:edge_vars_after_description=%d' % (len(vs_py) - 1 - list(vs_py).index('description')))
+            nf.build(output=sect[0], rule=rule, inputs=sect[1], implicit=sect[2], order_only=sect[3], variables=vs_py)
+            enc_builds.append([[[[2, p_]] for p_ in sect[0]], rule] + [[[[2, p_]] for p_ in x] for x in sect[1:]] + [vs_enc])
+            outs_decl.append((sect, rule, [v_[0] for v_ in vs_enc]))
+        dflt = [outs_decl[0][0][0][0]] if outs_decl and rng.random() < 0.5 else []
+        if dflt:
+            nf.default(dflt)
+        o = StringIO()
+        try:
+            nf.write(o)
+            iv = o.getvalue()
+        except ValueError:
+            iv = None
+        wire_rules = [[r[0], r[1]] + [[x] if x is not None else None for x in r[2:5]] + [r[5], [r[6]] if r[6] is not None else None, r[7]]
+                      for r in enc_rules]
+        wf = [nf._bfgfile, [minver] if minver else None, enc_vars[Section.path], enc_vars[Section.command], enc_vars[Section.flags],
+              enc_vars[Section.other], wire_rules, enc_builds, [[[2, d]] for d in dflt]]
+        calls.append(('ninja.file_write', [uw, wf])); impl.append(iv)
+        declared.append((iv, refs, rnames, outs_decl, dflt))
+        rep.case('nf:%r' % (wf,), True)
+        rep.count('file_write:' + ('raises' if iv is None else 'ok'))
+    dis = common.compare_model(rep, 'W:NinjaFile.write', calls, impl, lambda n_, r: d_opt(d_str, r), vm_limit=25)
+    # the extracted parser on the real text: total on the written files, and it reads back what was declared
+    bad = 0
+    texts = [d for d in declared if d[0] is not None]
+    raw = common.model_batch([('ninja.parse_manifest', [d[0]]) for d in texts])
+    for (text, refs, rnames, outs_decl, dflt), r in zip(texts, raw):
+        why = None
+        if not r:
+            why = 'the parser rejects the written text'
+        else:
+            vars_, rules, edges, defaults = r[0]
+            if [d_str(p_[0]) for p_ in vars_] != (['ninja_required_version'] if 'ninja_required_version = ' in text else []) + refs:
+                why = 'file-level names %r' % ([d_str(p_[0]) for p_ in vars_],)
+            elif [d_str(x[0]) for x in rules] != rnames:
+                why = 'rule names'
+            elif [([d_list(d_str, e[0])] + [d_list(d_str, x) for x in e[2:5]], d_str(e[1]), [d_str(p_[0]) for p_ in e[5]]) for e in edges] != \
+                    [(sect, rule, vn) for sect, rule, vn in outs_decl]:
+                why = 'edges'
+            elif d_list(d_str, defaults) != dflt:
+                why = 'defaults'
+        if why:
+            bad += 1
+            rep.fail('R/W:parse_total_on_written - NinjaFile.write text is not read back by the structure parser (%s)' % why,
+                     {'obligation': 'R/W:parse_manifest(NinjaFile.write)', 'build.ninja': text, 'why': why}, found_input=False)
+    rep.stage('R/W:parse_manifest(NinjaFile.write)', cases=len(texts), failures=bad)
+    return dis
+
+
+class _FakeEnv:
+    def __init__(self, console):
+        from bfg9000.versioning import Version
+        self.backend_version = Version('1.11.1') if console else None
+
+
+def stage_manifest_theorems(rep, rng, n):
+    """Ties C02_manifest_cmd / C02_scoping to the code and checks the property on the implementation at manifest level:
+    the real ninja/writer.py command_build and flags_vars (+ a compile-like rule) on an empty NinjaFile, written by the
+    real NinjaFile.write, must (W) equal the model texts w_command_build / w_compile_file and (oracle) be evaluated by
+    command_of to a line that the REAL dash splits into exactly the declared words."""
+    from bfg9000.backends.ninja.syntax import NinjaFile, Section, var
+    from bfg9000.backends.ninja.writer import command_build, flags_vars
+    uw, _ = gen.uni_tables()
+    calls, impl, oracle = [], [], []
+    words_pool = [[w] for w in CORPUS_WORDS if w] + [['a\nb']]
+    for i in range(n):
+        words = rng.choice(words_pool) if rng.random() < 0.2 else gen.arg_list(rng, rep, maxn=4)
+        words = [w for w in words if '\0' not in w]
+        if i % 2 == 0:
+            console, phony = rng.random() < 0.4, rng.random() < 0.4
+            desc = gen.arg_string(rng, rep, maxlen=5) if rng.random() < 0.3 else None
+            outs = [gen_pathname(rng, rep, 'o%d' % k) for k in range(rng.randint(1, 2))]
+            ins, imp, oo = ([gen_pathname(rng, rep, t + str(k)) for k in range(rng.randint(0, 2))] for t in 'ijk')
+            nf = NinjaFile('build.bfg')
+            o = StringIO()
+            try:
+                command_build(nf, _FakeEnv(console), output=outs, inputs=ins, implicit=imp, order_only=oo,
+                              command=[shtools.ARGVREC] + words, console=console, phony=phony, description=desc or None)
+                nf.write(o)
+                iv = o.getvalue()
+            except ValueError:
+                iv = None
+            calls.append(('ninja.command_build', [uw, 'build.bfg', outs, ins, imp, oo, [shtools.ARGVREC] + words, console, phony,
+                                                  [desc] if desc else None]))
+            impl.append(iv)
+            oracle.append(('cmd', iv, outs[0], words))
+            rep.count('manifest:command_build' + (':console' if console else '') + (':phony' if phony else ''))
+        else:
+            k = rng.randint(0, len(words))
+            g, t = words[:k], words[k:]
+            src, obj = gen_pathname(rng, rep, 's'), gen_pathname(rng, rep, 'o')
+            nf = NinjaFile('build.bfg')
+            o = StringIO()
+            try:
+                cc = nf.variable('cc', [shtools.ARGVREC], Section.command, True)
+                gf, f = flags_vars('cflags', g, nf)
+                nf.rule('cc', command=[cc, f, '-c', var('in'), '-o', var('out')])
+                nf.build(output=obj, rule='cc', inputs=[src], variables={f: [gf] + t})
+                nf.write(o)
+                iv = o.getvalue()
+            except ValueError:
+                iv = None
+            calls.append(('ninja.compile_file', [uw, 'build.bfg', [shtools.ARGVREC], g, t, src, obj]))
+            impl.append(iv)
+            oracle.append(('flags', iv, obj, g + t + ['-c', src, '-o', obj]))
+            rep.count('manifest:compile_file')
+        rep.case('mf:%r' % (calls[-1][1][2:],), True)
+    dis = common.compare_model(rep, 'W:command_build/flags_vars->NinjaFile.write', calls, impl, lambda n_, r: d_opt(d_str, r),
+                               vm_limit=25)
+    bad = 0
+    live = [x for x in oracle if x[1] is not None]
+    cmds = common.model_batch([('ninja.command_of', [text, 0, out]) for _, text, out, _ in live])
+    for (kind, text, out, expect), r in zip(live, cmds):
+        got, err = None, ''
+        cmd = d_opt(d_str, r)
+        if cmd is None:
+            err = 'command_of fails on the written manifest'
+        else:
+            rc, recs, err = shtools.dash_run(cmd, cwd=_CWD)
+            if rc == 0 and len(recs) == 1:
+                got = recs[0]['argv']
+        if got != expect:
+            if rep.fail('Ninja backend, manifest level (%s): arguments %r are delivered as %r (%s)' % (kind, expect, got, err[:100]),
+                        {'channel': kind, 'args': expect, 'delivered': got, 'build.ninja': text, 'error': err}, classes=()):
+                bad += 1
+    rep.stage('oracle:writer.py->NinjaFile.write->command_of->dash', cases=len(live), failures=bad)
+    return dis, bad
+
+
+# ----------------------------------------------------------------------------- system: steps with description=
+ODD_BITS = [' ', '$x', '$HOME', "'", '"', ';', '&', '(', '#', '*', '=', ' -', '`']
+
+
+def odd_file_name(rng, stem, ext='.txt'):
+    bits = [stem] + [rng.choice(ODD_BITS) for _ in range(rng.randint(0, 2))]
+    s = bits[0]
+    for b in bits[1:]:
+        k = rng.randint(1, len(s))
+        s = s[:k] + b + s[k:]
+    return s + ext
+
+
+def described_steps(rep, rng, idx):
+    """Generated project whose steps carry a user description= next to further per-edge variables: copy_file in every
+    mode (the symlink/hardlink copiers pass the source through an extra edge variable), command(), build_step().
+    The real bfg9000 configures it for Ninja; every edge is evaluated by the reference evaluator and run by the real dash
+    with recorders named ln / cp first on PATH; the process must receive the declared arguments / file names."""
+    import os
+    from . import project
+    steps, lines = [], ["project('p', '1.0')"]
+    files = {}
+    for i in range(rng.randint(2, 4)):
+        src = odd_file_name(rng, 'da%d' % i)
+        out = rng.choice(['', 'sub%d/' % i]) + odd_file_name(rng, 'li%d' % i)
+        mode = rng.choice(['copy', 'symlink', 'symlink', 'hardlink'])
+        desc = rng.choice([None, gen.arg_string(rng, None, maxlen=8).replace('\n', ' ') or 'de sc$x'])
+        if i == 0:
+            # every project has one described copier step that passes its source through a further edge variable, and
+            # whose source name needs shell quoting
+            mode, desc = 'symlink', desc or 'linking $x'
+            src = src[:2] + rng.choice([' ', '$x', '$HOME', "'", ' $']) + src[2:]
+        files[src] = 'x\n'
+        lines.append('copy_file(%r, %r, mode=%r%s)' % (out, src, mode, ', description=%r' % desc if desc else ''))
+        steps.append({'kind': 'copy', 'out': out, 'src': src, 'mode': mode, 'desc': desc})
+    for i in range(rng.randint(1, 3)):
+        args = [a for a in gen.arg_list(rng, rep, maxn=3) if not any(c in a for c in '\n\r\0')] or ['a b']
+        desc = rng.choice([None, gen.arg_string(rng, None, maxlen=8).replace('\n', ' ') or 'de sc$x'])
+        d = ', description=%r' % desc if desc else ''
+        if rng.random() < 0.5:
+            lines.append('command(%r, cmd=%r%s)' % ('cmd%d' % i, [shtools.ARGVREC] + args, d))
+            steps.append({'kind': 'command', 'out': 'cmd%d' % i, 'args': args, 'desc': desc})
+        else:
+            lines.append('build_step(%r, cmd=%r%s)' % ('gen%d.out' % i, [shtools.ARGVREC] + args, d))
+            steps.append({'kind': 'build_step', 'out': 'gen%d.out' % i, 'args': args, 'desc': desc})
+    files['build.bfg'] = '\n'.join(lines) + '\n'
+    bad = 0
+    with project.Scratch('c02d') as sc:
+        project.write_tree(sc.src, files)
+        rc, out = project.configure(sc.src, sc.build, 'ninja')
+        if rc != 0:
+            rep.count('system:configure_failed')
+            rep.sample({'configure_failed': out[-300:], 'script': files['build.bfg']})
+            return 0
+        stub = os.path.join(sc.build, '.stubs')
+        os.makedirs(stub, exist_ok=True)
+        for t in ('ln', 'cp'):
+            os.symlink(shtools.ARGVREC, os.path.join(stub, t))
+        text = project.read(sc.build, 'build.ninja')
+        m = ninjaparse.parse(text)
+        for st in steps:
+            b = m.edge_for(st['out'])
+            got, err, expect_ok = None, '', False
+            if b is None:
+                err = 'no edge produces %r' % st['out']
+            else:
+                rc_, recs, err = shtools.dash_run(m.command(st['out']), cwd=sc.build,
+                                                  extra_env={'ARGVREC_TOUCH': '', 'PATH': stub + ':' + os.path.join(common.VERIF, 'harness', 'stubs') + ':/venv/bin:/usr/bin:/bin'})
+                if rc_ == 0 and len(recs) == 1:
+                    got = recs[0]['argv']
+                    if st['kind'] == 'copy':
+                        want_src = os.path.join(sc.src, st['src'])
+                        denotes = len(got) >= 2 and os.path.normpath(os.path.join(sc.build, os.path.dirname(st['out']) if st['mode'] == 'symlink' else '', got[-2])) == want_src
+                        expect_ok = len(got) == 3 and got[-1] == st['out'] and denotes and os.path.basename(recs[0]['argv0']) in ('ln', 'cp')
+                    else:
+                        expect_ok = got == st['args']
+            rep.case('sysd:%s:%r' % (st['kind'], st), True)
+            rep.count('described:%s:%s:%s' % (st['kind'], st.get('mode', '-'), 'desc' if st['desc'] else 'nodesc'))
+            if not expect_ok:
+                declared = st['args'] if st['kind'] != 'copy' else [st['src'], st['out']]
+                bad += rep.fail('ninja backend: %s step %r%s: declared %r is delivered as %r (%s)' % (
+                    st['kind'], st['out'], ' with description=%r' % st['desc'] if st['desc'] else '', declared, got, err[:120]),
+                    {'script': files['build.bfg'], 'step': st, 'delivered': got, 'edge': b and {k_: b[k_] for k_ in ('outputs', 'rule', 'inputs', 'bound')},
+                     'error': err[-300:]})
+    rep.traces += 1
     return bad
 
 
 def run(rep):
+    global _CWD
+    import shutil
+    _CWD = common.scratch('c02sh')
+    try:
+        _run(rep)
+    finally:
+        shutil.rmtree(_CWD, ignore_errors=True)
+        _CWD = None
+
+
+def _run(rep):
     rng = random.Random(rep.seed)
     thorough = rep.tier == 'thorough'
     rep.proof_stage(coqchk=thorough)
     n = 3000 if thorough else 400
     dis = stage_w_ninja(rep, rng, n)
     stage_r_inout(rep, rng, 400 if thorough else 80)
-    found = stage_oracle_ninja(rep, rng, (500 if thorough else 60) * (5 if dis else 1))
+    dis = dis + stage_w_file(rep, rng, 400 if thorough else 60)
+    dis2, found = stage_manifest_theorems(rep, rng, (600 if thorough else 80) * (5 if dis else 1))
+    dis = dis + dis2
+    found += stage_oracle_ninja(rep, rng, (500 if thorough else 60) * (5 if dis else 1))
     from . import c06
     for i in range(12 if thorough else 2):
         found += c06.declared_vs_delivered(rep, rng, i, 'ninja', odd_names=(i % 2 == 1))
+    for i in range(10 if thorough else 3):
+        found += described_steps(rep, rng, i)
     rep.stage('system:configure->evaluator->dash->recorder', projects=rep.traces)
+    rep.stage('R:parse_manifest == Python splitter (every manifest seen)', **ninjaparse.STATS)
+    if ninjaparse.STATS['disagreements']:
+        rep.fail('R:structure parser - the extracted manifest parser and the Python splitter disagreed on %d manifests' % ninjaparse.STATS['disagreements'],
+                 {'obligation': 'R:parse_manifest == Python splitter', 'stats': dict(ninjaparse.STATS)}, found_input=False)
     if dis and not found:
         i, call, iv, mv = dis[0]
         rep.fail('W:%s - model and implementation disagree (%d cases), e.g. %r: impl %r, model %r' % (
